@@ -933,7 +933,7 @@ THEOREMS = ["Dashu.Props.C06." + n for n in [
     "rbig_to_float_decisions_regenerated", "rbig_to_float_precision_zero_panics", "rbig_to_float_zero",
     "rbig_to_float_quotient_stage", "rbig_to_float_correct_when_fits", "rbig_to_float_directed_correct",
     "rbig_to_float_half_modes_counterexample", "fbig_from_rbig_is_one_rounding", "fbig_from_rbig_lossy_counterexample", "fbig_from_ibig_exact", "fbig_from_rbig_source_shape", "rbig_to_float_correct_when_quotient_short",
-    "rbig_to_float_correct_when_quotient_exact"]]
+    "rbig_to_float_correct_when_quotient_exact", "rbig_to_float_nearest_correct_unless_second_tie"]]
 EXTRA_AXIOMS = {}      # bv_decide was NOT needed: encode_correct is an arithmetic proof (propext, Classical.choice, Quot.sound only)
 
 REFINED = [
@@ -980,7 +980,8 @@ REFINED = [
     "for the exact value num/den in EVERY directed mode (rbig_to_float_directed_correct: two roundings in the same directed mode are one) and in "
     "every mode whenever the first-rounded quotient fits the precision (rbig_to_float_correct_when_fits), in particular — hypotheses on the "
     "input only — whenever the scaled quotient is below B^p (rbig_to_float_correct_when_quotient_short) or is an integer "
-    "(rbig_to_float_correct_when_quotient_exact); the two nearest modes are not always "
+    "(rbig_to_float_correct_when_quotient_exact), and for HalfEven / HalfAway in every even base whenever the second rounding is not an exact "
+    "tie (rbig_to_float_nearest_correct_unless_second_tie); the two nearest modes are not always "
     "correct (rbig_to_float_half_modes_counterexample = the recorded finding)",
     "rational/src/third_party/dashu_float.rs From<Repr> for FBig (From<RBig>, From<Relaxed>): mirrored on C03's repr_div "
     "(fbigFromRat, `f.from.rbig.code` / `f.from.relaxed.code`: value and precision, every mode); linked by theorem to C03: it is ONE rounding of "
@@ -997,7 +998,8 @@ FRONTIER = [
     "only (single rounding of the exact rational value under the documented mode, flags derived from the true error); for the mirrored "
     "branches the SINGLE-rounding value/flag is decided per case against the specification (the code rounds twice: findings)",
     "RBig/Relaxed::to_float in the two NEAREST modes (HalfEven, HalfAway) when the quotient stage leaves a non-zero remainder AND the first-rounded "
-    "quotient has more than `precision` digits (scaled quotient >= B^p): the "
+    "quotient has more than `precision` digits (scaled quotient >= B^p) AND (the digits dropped by the second rounding are exactly half a unit, "
+    "or the base is odd): the "
     "mirrored code rounds twice and is proved wrong on concrete inputs; no closed form of the exact bad region is proved (the finding predicate "
     "re-computes both roundings per case) — the single-rounding value/flag is decided per case against the specification op `r.to_float`",
     "RBig::to_float with 2^22 < shift < 2^64 - 64 digits (memory proportional to the precision): not driven on either side; the allocation "
